@@ -88,9 +88,13 @@ def python_codec_tables(ctx: Context):
             if name == other:
                 continue
             if len(r) != 1:
-                raise AnalysisError(f"{fn.fq}: {len(r)} results for "
-                                    f"compression {name!r}")
-            fam[name] = codec_of(ctx, fn, [ast.Return(value=r[0])], param)
+                fam[name] = ("?", f"{len(r)} different results")
+                continue
+            try:
+                fam[name] = codec_of(ctx, fn, [ast.Return(value=r[0])], param)
+            except AnalysisError:
+                fam[name] = ("?", "not one library call on the whole payload: "
+                             + short(r[0], 50))
         return fam, default_raises
 
     cfam, cdef = table(comp)
